@@ -13,7 +13,7 @@ from pyvc.values import Builtin, ExcV, Opaque, Opt, Ref, U, fresh_name, to_int_t
 
 from .a_common import is_none
 from .a_submit import CFG, EXTRA, UT
-from .a_tasks import calls, exts, flat, index_of, trivial_loop
+from .a_tasks import calls, exts, flat, index_of, trivial_loop, only_propagates
 from .spec import TWO53, b2z, implies, is_ceil_div
 
 B = z3.BoolVal
@@ -108,7 +108,7 @@ def register(R):
 
     R.contract(f'{SUB}._submit_single_get_object_job', props=['C19', 'C15'],
                params=dict(download_file_request=REQ, temp_filename=ExtT('str')),
-               checks=single_checks, raises={'Exception': lambda c: {}}, raise_when={'Exception': lambda c: None})
+               checks=single_checks, raises={'Exception': only_propagates}, raise_when={'Exception': lambda c: None})
 
     def ranged_iteration(l0, l1, evs):
         pu = [e for e in evs if e.kind == 'ext' and e.name == 'mpqueue.put']
@@ -157,7 +157,7 @@ def register(R):
     R.contract(f'{SUB}._submit_ranged_get_object_jobs', props=['C19', 'C15', 'C14'],
                params=dict(download_file_request=REQ, temp_filename=ExtT('str'), size=Int),
                setup=ranged_setup, checks=ranged_checks,
-               raises={'Exception': lambda c: {}}, raise_when={'Exception': lambda c: None},
+               raises={'Exception': only_propagates}, raise_when={'Exception': lambda c: None},
                loops={0: LoopSpec(invariant=lambda l: {}, iteration_checks=ranged_iteration)})
 
     def sgoj_checks(c):
@@ -183,7 +183,7 @@ def register(R):
         return out
 
     R.contract(f'{SUB}._submit_get_object_jobs', props=['C19', 'C15', 'C14'], params=dict(download_file_request=REQ),
-               checks=sgoj_checks, raises={'Exception': lambda c: {}}, raise_when={'Exception': lambda c: None})
+               checks=sgoj_checks, raises={'Exception': only_propagates}, raise_when={'Exception': lambda c: None})
 
     # submitter loop: any failure is reported as exception then done, for that transfer
     R.external('queue_item', **{'.transfer_id': ExtSpec(returns=lambda eng, st, recv, a, k: Opaque(z3.Function('item_transfer_id', U, U)(recv.term), kind='id'), pure=True)})
@@ -327,7 +327,7 @@ def register(R):
         }
 
     R.contract(f'{PPD}._shutdown', props=['C19'], params={}, checks=ppd_shutdown_checks,
-               raises={'Exception': lambda c: {}}, raise_when={'Exception': lambda c: None})
+               raises={'Exception': only_propagates}, raise_when={'Exception': lambda c: None})
 
     def ppd_exit_checks(c):
         tr = c.trace
@@ -342,7 +342,7 @@ def register(R):
 
     R.contract(f'{PPD}.shutdown', params={}, raise_when={'Exception': lambda c: None})
     R.contract(f'{PPD}.__exit__', props=['C19'], params=dict(exc_type=Any, exc_value=OptT(ExtT('exception'))),
-               checks=ppd_exit_checks, raises={'Exception': lambda c: {}})
+               checks=ppd_exit_checks, raises={'Exception': only_propagates})
 
     FUT = f'{PP}:ProcessPoolTransferFuture'
     R.add_fields(FUT, _monitor=ExtT('monitor'), _meta=ExtT('ppmeta'))
